@@ -304,11 +304,13 @@ fn sampling_expectation(spec: &Spec) -> (bool, bool, f64) {
                 }
             },
             CK::So3 { bounds: Some((_, rad)) } => {
-                if *rad >= 1e-9 && *rad < 0.1 {
+                // (cones of 0.04 .. 0.1 rad are sampled too, a handful of times: implementations
+                // like to special-case "narrow" cones)
+                if *rad >= 1e-9 && *rad < 0.04 {
                     slow = true;
                 }
                 let rad = rad.min(PI);
-                if rad >= 0.1 {
+                if rad >= 0.04 {
                     cost += 4.0 / (0.308 * (rad - rad.sin()) / PI);
                 }
             }
@@ -484,7 +486,7 @@ pub fn run(tier: Tier, seed: u64) -> i32 {
         &[
             "idempotence and 'unchanged' are judged per component up to 1e-12 (relative for R^n) / 1e-7 for quaternions, not bitwise",
             "independent bounds test with 1e-9 rounding allowance (2.5e-7 for SO3 cones: the library tolerates 1e-7 and its acos-based angle carries up to 4e-8 of noise)",
-            "SO3 cones with radius in [1e-9, 0.1) are not sampled (rejection sampling cost ~ radius^-3); a sampler exceeding 4e7 draws is inconclusive",
+            "SO3 cones with radius in [1e-9, 0.04) are not sampled (rejection sampling cost ~ radius^-3), those in [0.04, 0.1) only 20 times; a sampler exceeding 4e7 draws is inconclusive",
             "NaN / infinite state components are outside the explored domain",
         ],
         json!({"settings": specs.len(), "samples_per_setting": n_samples}),
